@@ -44,6 +44,7 @@ class Check(HCheck):
             al.page(long1),
             al.links((Ax, Ab), (Ab, Ax), (Ax, Ab)),
             al.crawl((Axy, (Ax, Axy, Bb)),),
+            al.pcrawl(2, (Bb, (Bb + b"p:k|", C1 + b"h:c|", Ab)), (Ab, (Bb,))),  # abandoned after 2 steps
             al.create(Ax),
             al.delete(0),
             al.rmprefix(Aw),
